@@ -60,14 +60,25 @@ def case_value(c, o):
     return [ths, list(o["sched"]), list(c["pre"]), c["slots"], list(o["markers"])]
 
 
+def hb_period_ms():
+    """heartbeat period regenerated into Gen/C15.v (seconds) -> ms; 30 s when absent"""
+    import re
+    try:
+        m = re.search(r"NodeHeartbeatSeconds : nat := (\d+)", open(os.path.join(vlib.COQ, "Gen", "C15.v")).read())
+        v = int(m.group(1))
+        return 1000 * (v if 0 < v <= 120 else 30)
+    except Exception:
+        return 30000
+
+
 def run(ctx, only_cases=None):
     thorough = ctx.tier == "thorough"
     binary = vlib.build_harness("C15")
-    gen_changed = vlib.write_if_changed(os.path.join(vlib.COQ, "Gen", "C15.v"), vlib.harness_text(binary, ["gen"]))
+    gen_changed = vlib.write_if_changed(os.path.join(vlib.COQ, "Gen", "C15.v"), vlib.harness_text(binary, ["gen", vlib.REPO]))
     broken = None
     try:
         pinfo = vlib.coq_properties("C15")
-        vlib.proof_coverage(ctx, pinfo, "make -C coq Properties/C15.vo && coqc Properties/C15.v (Print Assumptions audit)", extra_obligations=3)
+        vlib.proof_coverage(ctx, pinfo, "make -C coq Properties/C15.vo && coqc Properties/C15.v (Print Assumptions audit)", extra_obligations=4)
     except vlib.Broken as b:
         broken = b
     if only_cases is not None:
@@ -95,20 +106,31 @@ def run(ctx, only_cases=None):
                 prev = f
             cases.append({"mode": "uuid", "n": ctx.rng.choice([2, 3, 6]), "kind": ctx.rng.randrange(4), "fails": fails})
         cases += [{"mode": "uuid", "n": 2, "kind": k, "fails": [True, False, True, False]} for k in range(4)]
+        # the tiered facade over a cache tier WITHOUT set-if-absent: one generator instance per caller, all 2-caller schedules
+        cases += [{"mode": "hybridnx", "n": 2, "sched": list(s)} for s in itertools.product([0, 1], repeat=4)]
+        cases += [{"mode": "hybridnx", "n": 3, "sched": [ctx.rng.randrange(3) for _ in range(8)]} for _ in range(40 if thorough else 8)]
         cases += [{"mode": "ttl"}]
         # node-id allocator sequences: allocate / lease lapses / release on 2-3 allocator objects over one store
         cases += [{"mode": "nodeseq", "n": 2, "sched": list(s)} for s in itertools.product(range(6), repeat=4)][:: (1 if thorough else 5)]
         cases += [{"mode": "nodeseq", "n": 3, "sched": [ctx.rng.randrange(9) for _ in range(ctx.rng.choice([4, 6, 9]))]} for _ in range(400 if thorough else 60)]
         cases += [{"mode": "nodefault", "n": k} for k in (1, 2, 3, 4)]
         cases += [{"mode": "birthday", "n": 120000 if thorough else 45000}]
-    outs = vlib.run_harness(binary, cases, timeout=1500)
+    # the node-id heartbeat case waits one real heartbeat period (the ticker cannot be injected): run it beside the others
+    hb_case = {"mode": "nodehb", "n": int(hb_period_ms() + 1500), "slots": 0}
+    import concurrent.futures as _cf
+    with _cf.ThreadPoolExecutor(max_workers=1) as ex:
+        hb_future = ex.submit(vlib.run_harness, binary, [hb_case], (), 300) if only_cases is None else None
+        outs = vlib.run_harness(binary, cases, timeout=1500)
+        if hb_future is not None:
+            cases = cases + [hb_case]
+            outs = outs + hb_future.result()
     nfail = 0
     for c, o in zip(cases, outs):
         if not o["prop_ok"]:
             nfail += 1
             if nfail <= 3:
                 kind = {"node": "node-id-duplicate", "nodeseq": "node-id-duplicate-after-lease-lapse", "nodefault": "node-id-duplicate-on-shared-cache-fault", "birthday": "duplicate-live-id-real-collision",
-                        "fallback": "fallback-duplicate", "uuid": "uuid-duplicate-under-entropy-fault", "ttl": "marker-lifetime"}.get(
+                        "fallback": "fallback-duplicate", "hybridnx": "hybrid-setnx-fallback-duplicate", "nodehb": "node-lease-not-renewed", "uuid": "uuid-duplicate-under-entropy-fault", "ttl": "marker-lifetime"}.get(
                     c["mode"], "leak" if "marker" in o["prop_msg"] else "duplicate-live-id")
                 ctx.violation(kind, "real idgen/node allocator: " + o["prop_msg"], {"case": c, "observed": o})
     sc = [(c, o) for c, o in zip(cases, outs) if c["mode"] == "sched"]
